@@ -558,7 +558,11 @@ func TestC06_defining_eq_in_ad(t *testing.T) {
 
 func TestC06_closed_form_matrix_calculus(t *testing.T) {
 	rapid.Check(t, func(t *rapid.T) {
-		which := rapid.SampledFrom([]string{"det", "logdet(PD)", "det(PD)", "inverse", "MdotM"}).Draw(t, "what")
+		which := rapid.SampledFrom([]string{"det", "det with zero entries", "logdet(PD)", "det(PD)", "inverse", "MdotM"}).Draw(t, "what")
+		if which == "det with zero entries" {
+			detWithZeros(t)
+			return
+		}
 		n := rapid.IntRange(1, 3).Draw(t, "n")
 		fam := "general"
 		if which == "logdet(PD)" || which == "det(PD)" {
@@ -674,6 +678,105 @@ func TestC06_closed_form_matrix_calculus(t *testing.T) {
 		}
 		c.End()
 	})
+}
+
+// the determinant is a polynomial of the entries: its derivative with respect to an entry is the
+// cofactor, also where entries are exactly zero and where the matrix is singular (no pivoting is
+// involved in the general determinant routine)
+func detWithZeros(t *rapid.T) {
+	n := rapid.IntRange(2, 4).Draw(t, "n")
+	a := model.NewMat(n, n)
+	for i := 0; i < n; i++ {
+		for j := 0; j < n; j++ {
+			if rapid.IntRange(0, 2).Draw(t, fmt.Sprintf("zero[%d][%d]", i, j)) == 0 {
+				continue
+			}
+			a[i][j] = float64(rapid.IntRange(-8, 8).Draw(t, fmt.Sprintf("a[%d][%d]", i, j))) / 2
+		}
+	}
+	act := activate(t, a, 16, false)
+	c := begin(t, "closed_form_matrix_calculus", "det with zero entries", a, act)
+	var d Scalar
+	var err error
+	p, _ := guarded(func() { d, err = determinant.Run(act.m) })
+	if p != "" || err != nil {
+		t.Fatalf("%s: panic/error: %s %v", c.Desc(), p, err)
+	}
+	var detOf func(m model.Mat) float64
+	detOf = func(m model.Mat) float64 {
+		k := len(m)
+		if k == 0 {
+			return 1
+		}
+		if k == 1 {
+			return m[0][0]
+		}
+		s, sign := 0.0, 1.0
+		for j := 0; j < k; j++ {
+			s += sign * m[0][j] * detOf(minorOf(m, 0, j))
+			sign = -sign
+		}
+		return s
+	}
+	if got, want := d.GetFloat64(), detOf(a); math.Abs(got-want) > 1e-9*(1+math.Abs(want)) {
+		t.Fatalf("%s: determinant %v, cofactor expansion gives %v", c.Desc(), got, want)
+	}
+	for ij, k := range act.index {
+		i, j := ij[0], ij[1]
+		want := detOf(minorOf(a, i, j))
+		if (i+j)%2 == 1 {
+			want = -want
+		}
+		if got := d.GetDerivative(k); !(math.Abs(got-want) <= 1e-9*(1+math.Abs(want))) {
+			t.Fatalf("%s: d det / dA(%d,%d) = %v, the cofactor is %v", c.Desc(), i, j, got, want)
+		}
+		if act.order == 2 {
+			// second derivatives: signed determinants of the matrix without rows i,k and columns j,l
+			for kl, l := range act.index {
+				r2, c2 := kl[0], kl[1]
+				want2 := 0.0
+				if r2 != i && c2 != j {
+					m1 := minorOf(a, i, j)
+					// position of (r2,c2) inside the minor
+					rr, cc := r2, c2
+					if rr > i {
+						rr--
+					}
+					if cc > j {
+						cc--
+					}
+					want2 = detOf(minorOf(m1, rr, cc))
+					if (i+j+rr+cc)%2 == 1 {
+						want2 = -want2
+					}
+				}
+				if got := d.GetHessian(k, l); !(math.Abs(got-want2) <= 1e-9*(1+math.Abs(want2))) {
+					t.Fatalf("%s: d2 det / dA(%d,%d) dA(%d,%d) = %v, the second-order cofactor is %v", c.Desc(), i, j, r2, c2, got, want2)
+				}
+			}
+		}
+	}
+	c.Class("zero entries")
+	c.End()
+}
+
+func minorOf(m model.Mat, i, j int) model.Mat {
+	k := len(m)
+	r := model.NewMat(k-1, k-1)
+	for a, x := 0, 0; a < k; a++ {
+		if a == i {
+			continue
+		}
+		for b, y := 0, 0; b < k; b++ {
+			if b == j {
+				continue
+			}
+			r[x][y] = m[a][b]
+			y++
+		}
+		x++
+	}
+	return r
 }
 
 // ---------------------------------------------------------------------------------------------
